@@ -234,6 +234,9 @@ func solveAll(items []*solveItem, dir string, timeoutS int, workers int, second 
 		go func() {
 			defer wg.Done()
 			for it := range ch {
+				if it.done {
+					continue
+				}
 				tmo := timeoutS
 				if it.ob.Kind == "cover" {
 					tmo = 3
@@ -287,4 +290,5 @@ type solveItem struct {
 	ground string
 	agree  int
 	short  bool
+	done   bool
 }
